@@ -151,10 +151,13 @@ def findlabels_pre_310(code, opc):
 NO_LINE_NUMBER = -128
 
 
-def findlinestarts(code, dup_lines=False):
+def findlinestarts(code, dup_lines=False, signed_line_deltas=True):
     """Find the offsets in a byte code which are start of lines in the source.
 
     Generate pairs (offset, lineno) as described in Python/compile.c.
+
+    Since Python 3.6 the line increments in co_lnotab are signed bytes; before
+    that they are unsigned (pass ``signed_line_deltas=False``).
     """
 
     if hasattr(code, "co_lines"):
@@ -203,7 +206,7 @@ def findlinestarts(code, dup_lines=False):
                         return
                     offset += byte_incr
                     pass
-                if line_delta >= 0x80:
+                if signed_line_deltas and line_delta >= 0x80:
                     # line_deltas is an array of 8-bit *signed* integers
                     line_delta -= 0x100
                 lineno += line_delta
@@ -211,6 +214,12 @@ def findlinestarts(code, dup_lines=False):
                 yield offset, lineno
 
     return
+
+
+def findlinestarts_pre36(code, dup_lines=False):
+    """findlinestarts() for bytecode before Python 3.6, where the line
+    increments of co_lnotab are unsigned bytes."""
+    return findlinestarts(code, dup_lines, signed_line_deltas=False)
 
 
 def instruction_size(op, opc):
